@@ -22,6 +22,7 @@ fn main() {
         shard: (0, 1),
         max_cases: 0,
         stride: 1,
+        time_budget_s: 0,
     };
     let mut out: Option<String> = None;
     let mut replay: Option<String> = None;
@@ -65,6 +66,10 @@ fn main() {
             }
             "--stride" => {
                 ctx.stride = val(i).parse().unwrap_or(1).max(1);
+                i += 1;
+            }
+            "--time-budget" => {
+                ctx.time_budget_s = val(i).parse().unwrap_or(0);
                 i += 1;
             }
             "--out" => {
